@@ -225,6 +225,21 @@ def run_impl(case):
                     except Exception:
                         narrow_same = False
         out["narrow_same"] = narrow_same
+        # the same rows held in pandas Series whose index is a permutation of 0..n-1 (rows of a shuffled DataFrame):
+        # row k is the k-th label, prediction and weight, whatever the index says
+        series_same = True
+        if labels:
+            import pandas as pd
+            idx = np.random.RandomState(len(labels) * 13 + 5).permutation(len(labels))
+            for lab_, pr_, w_ in ((pd.Series(labels, index=idx), pd.Series(preds, index=idx), None if weights is None else pd.Series(weights, index=idx)),
+                                  (labels, preds, None if weights is None else pd.Series(weights, index=idx)),
+                                  (pd.Series(labels, index=idx[::-1]), preds, weights)):
+                try:
+                    cms = ConfusionMatrix(lab_, pr_, weights=w_, classes=classes)
+                    series_same = series_same and bool(np.array_equal(cms.matrix, cm.matrix) and list(cms.classes) == list(cm.classes))
+                except Exception:
+                    series_same = False
+        out["series_same"] = series_same
         base = list(cm.classes)
         classes2 = [base[i] for i in case["perm"]]
         out["perm"] = _collect(ConfusionMatrix(labels, preds, weights=weights, classes=classes2), style)
@@ -255,6 +270,33 @@ def run_impl(case):
         out["reshaped"] = _collect(ConfusionMatrix(matrix=arr.reshape(tuple(other) + (N, N)).copy(), classes=names),
                                    style if req is not None else "int")
         out["reshaped_lead"] = other
+    # the same kind of count matrix held in a narrow integer dtype (entries up to the top of the dtype's range, so sums
+    # of entries do not fit the dtype): every result equals the result for the same numbers held as int64
+    narrow = []
+    if case["dtype"] == "int" and arr.size:
+        for ndt, mult in ((np.uint8, 37), (np.uint16, 9973), (np.int32, 104729 * 1009)):
+            hi = int(np.iinfo(ndt).max)
+            big = np.array([[(int(v) * mult + 11 * (i_ + 1)) % (hi + 1) for v in m_.reshape(-1)] for i_, m_ in enumerate(arr.reshape(-1, N * N))],
+                           dtype=np.int64).reshape(arr.shape)
+            ref = ConfusionMatrix(matrix=big.copy(), classes=names)
+            nar = ConfusionMatrix(matrix=big.astype(ndt), classes=names)
+            row = {"dtype": np.dtype(ndt).name, "matrix": [int(v) for v in big.reshape(-1)][: 2 * N * N]}
+            try:
+                row["acc_same"] = bool(np.array_equal(nar.accuracy(), ref.accuracy(), equal_nan=True)
+                                       and np.array_equal(nar.error_rate(), ref.error_rate(), equal_nan=True)
+                                       and np.array_equal(nar.pop(), ref.pop()))
+                row["acc"] = [repr(float(v)) for v in np.atleast_1d(nar.accuracy()).reshape(-1)[:3]]
+                row["acc_ref"] = [repr(float(v)) for v in np.atleast_1d(ref.accuracy()).reshape(-1)[:3]]
+            except Exception as e_:
+                row["acc_same"], row["acc"] = False, [type(e_).__name__]
+            try:
+                row["ova_same"] = bool(np.array_equal(nar.one_vs_all().matrix, ref.one_vs_all().matrix)
+                                       and all(np.array_equal(getattr(nar, nm_)(), getattr(ref, nm_)(), equal_nan=True)
+                                               for nm_ in ("tpr", "tnr", "ppv", "npv", "topr", "class_accuracy")))
+            except Exception:
+                row["ova_same"] = False
+            narrow.append(row)
+    out["narrow_matrix"] = narrow
     sigma = case["perm"]
     arr2 = arr[..., sigma, :][..., :, sigma]
     names2 = [_name(style, order[i]) for i in sigma]
@@ -606,6 +648,9 @@ def oracle(case, res):
         if r.get("narrow_same") is False:
             fails.append(("C05/equivalent-inputs/narrow-dtype", "[labels] the same integer labels held in a uint8 / int8 / int16 array give a "
                                                                 "different matrix (or raise) than as a list"))
+        if r.get("series_same") is False:
+            fails.append(("C05/equivalent-inputs/series", "[labels] the same rows held in pandas Series with a permuted integer index give a "
+                                                          "different matrix (or raise) than as lists: rows are positional"))
         sigma = case["perm"]
         c2 = [classes[i] for i in sigma]
         W2 = [[W[i][j] for j in sigma] for i in sigma]
@@ -643,6 +688,14 @@ def oracle(case, res):
                 if r[form]["matrix"] != r["main"]["matrix"] or r[form]["classes"] != r["main"]["classes"]:
                     fails.append(("C05/equivalent-inputs", f"{form} input gives {r[form]['matrix']['vals']} / {r[form]['classes']}, "
                                   f"ndarray input gives {r['main']['matrix']['vals']} / {r['main']['classes']}"))
+    nfails = []
+    for row in r.get("narrow_matrix") or []:
+        if not row["acc_same"]:
+            nfails.append(("C05/accuracy/narrow-int-matrix", f"[{row['dtype']} matrix {row['matrix']}...] accuracy / error_rate / pop = {row.get('acc')}, "
+                          f"the same numbers held as int64 give {row.get('acc_ref')}: accuracy is trace / population"))
+        if not row["ova_same"]:
+            nfails.append(("C05/one-vs-all/narrow-int-matrix", f"[{row['dtype']} matrix {row['matrix']}...] one_vs_all() / per-class rates differ from (or raise, "
+                          "unlike) those of the same numbers held as int64: sums of entries are formed in the matrix's own narrow dtype"))
     sigma = case["perm"]
     if not fails:
         _check_cm(case, r["perm"], "permuted", [order[i] for i in sigma],
@@ -650,7 +703,7 @@ def oracle(case, res):
     if not fails:
         main = dict(r["main"], classes=order)
         _check_equivariance(main, r["perm"], sigma, case["shape"], fails, exact)
-    return fails
+    return fails + nfails
 
 
 def nontrivial(case, res):
